@@ -133,7 +133,10 @@ def rule_histories(ctx, tci):
             continue
         cases = [("string in range", "E-4", True), ("string below", "C-0" if lo > 0 else None, False), ("long spelling in range", "Abbbbb-4", True),
                  ("Note in range", ("E", 4), True), ("Note above", ("C", 9), False), ("Note below", ("C", 0) if lo > 0 else None, False),
-                 ("two-note container in range", [("E", 4), ("G", 4)], True)]
+                 ("two-note container in range", [("E", 4), ("G", 4)], True),
+                 # a list is voiced by the container: the notes that are checked must be the notes that are placed
+                 ("list voiced above the range", {"raw": list({"Instrument": ("B-7", "C#"), "Piano": ("A-8", "C"), "Guitar": ("E-7", "F"), "MidiInstrument": ("A-8", "C")}[iname])}, False),
+                 ("list of name and octave in range", {"raw": [["C", 5]]}, True), ("list of names in range", {"raw": ["C-4", "E", "G"]}, True)]
         for clabel, arg, want in cases:
             if arg is None:
                 continue
@@ -144,6 +147,8 @@ def rule_histories(ctx, tci):
                     a = new(it, noteci, arg[0], arg[1])
                 elif isinstance(arg, list):
                     a = new(it, nci, [new(it, noteci, n, o) for n, o in arg])
+                elif isinstance(arg, dict):
+                    a = [list(x) if isinstance(x, list) else x for x in arg["raw"]]
                 else:
                     a = arg
                 return outcome(it, lambda: it.call_method(t, "add_notes", [a, 4], {}, None)), _flatten(t)
@@ -199,6 +204,58 @@ def rule_histories(ctx, tci):
             elif any(tot != ln for tot, ln in bars[:-1]) or any(tot == 0 for tot, ln in bars):
                 ok, why = False, "bars are filled %s of %s: every bar but the last must be full and none empty" % ([str(b[0]) for b in bars], [str(b[1]) for b in bars])
         ctx.check(ok, R, "from_chords[%s]" % label, repo.find_method(tci, "from_chords").where(), "Track.from_chords(%r, %r) (%s)" % (chords, dur, label), why)
+
+    # (e) '+' on a track takes what add_notes and add_bar take, and reports it
+    for label, mkitem, want_entry in (("rest", lambda it: None, (Fraction(1, 4), None)), ("list of names", lambda it: ["C-4", "E-4"], (Fraction(1, 4), (48, 52))),
+                                      ("name", lambda it: "C", (Fraction(1, 4), (48,))), ("Note", lambda it: new(it, noteci, "D", 4), (Fraction(1, 4), (50,))),
+                                      ("NoteContainer", lambda it: new(it, nci, ["C", "G"]), (Fraction(1, 4), (48, 55))), ("Bar", lambda it: new(it, bci, "C", (3, 4)), None)):
+        for with_piano in (False, True):
+            def go(it, mkitem=mkitem, with_piano=with_piano):
+                t = new(it, tci, new(it, imod.cls("Piano"))) if with_piano else new(it, tci)
+                item = mkitem(it)
+                r = outcome(it, lambda: it.binop(ast.Add, t, item))
+                return r, _flatten(t), item, t
+            v, err = run1("'+' %s" % label, go)
+            ok, why = err is None, err
+            if ok:
+                r, (entries, bars), item, t = v
+                if r[0] != "return" or r[1] is None or r[1] is False:
+                    ok, why = False, "track + <%s> reports %s" % (label, r)
+                elif want_entry is None:
+                    if not (len(t.attrs["bars"]) == 1 and t.attrs["bars"][0] is item):
+                        ok, why = False, "track + <bar> leaves bars %s" % (t.attrs["bars"],)
+                elif [(e[0], e[1]) for e in entries] != [want_entry]:
+                    ok, why = False, "track + <%s> reports %r but the track holds %s, expected %s" % (label, r[1], [(str(e[0]), e[1]) for e in entries], [(str(want_entry[0]), want_entry[1])])
+            ctx.check(ok, R, "plus[%s,%s]" % (label, "piano" if with_piano else "no instrument"), repo.find_method(tci, "__add__").where(),
+                      "Track(%s) + <%s>" % ("Piano()" if with_piano else "", label), why)
+
+    # (g) notes added to a composition reach exactly the selected tracks: also after a bar or a container went to two tracks at once
+    def go_sel(it):
+        c = new(it, compci)
+        t0, t1, t2 = new(it, tci), new(it, tci), new(it, tci)
+        for t in (t0, t1, t2):
+            it.call_method(c, "add_track", [t], {}, None)
+        c.attrs["selected_tracks"] = [0, 1]
+        it.call_method(c, "add_note", [new(it, bci, "C", (4, 4))], {}, None)
+        it.call_method(c, "add_note", ["C"], {}, None)
+        it.call_method(c, "add_note", [new(it, nci, ["D", "F"])], {}, None)
+        c.attrs["selected_tracks"] = [1]
+        it.call_method(c, "add_note", ["E"], {}, None)
+        return [_flatten(t) for t in (t0, t1, t2)], [t.attrs["bars"] for t in (t0, t1, t2)]
+    v, err = run1("selection", go_sel)
+    ok, why = err is None, err
+    if ok:
+        flats, bars = v
+        got = [[(str(e[0]), e[1]) for e in f[0]] for f in flats]
+        q = "1/4"
+        want = [[(q, (48,)), (q, (50, 53))], [(q, (48,)), (q, (50, 53)), (q, (52,))], []]
+        shared = [i for i, b in enumerate(bars[0]) if any(b is b2 for b2 in bars[1])]
+        conts = [[id(e[2]) for e in f[0] if e[2] is not None] for f in flats]
+        if got != want:
+            ok, why = False, "tracks hold %s; adding to selection [0, 1] and then to [1] should give %s" % (got, want)
+        elif shared or set(conts[0]) & set(conts[1]):
+            ok, why = False, "the two selected tracks store the same %s object: changing one track changes the other" % ("Bar" if shared else "NoteContainer")
+    ctx.check(ok, R, "selection", repo.find_method(compci, "add_note").where(), "Composition.add_note(<bar>, 'C', <container>) to tracks [0, 1], then 'E' to [1]", why)
 
     # (d) equality follows the contents (and never raises): tracks with a rest, compositions
     def go_eq(it):
@@ -357,7 +414,8 @@ def rule_new_bar(ctx, tci):
     repo = ctx.repo
     fi = repo.find_method(tci, "add_notes")
     bci = repo.mod(BAR).cls("Bar")
-    note, dur, res = Opaque("note"), Opaque("value"), Opaque("placed")
+    # the item is a container (what every other form is turned into before it is stored)
+    note, dur, res = AObj(repo.mod(NC).cls("NoteContainer"), {"notes": [Opaque("member")]}, name="item"), Opaque("value"), Opaque("placed")
 
     def bar_ctor(it, args, kwargs, node):
         o = AObj(bci, {"ctor_args": list(args), "ctor_kwargs": dict(kwargs)}, name="newbar")
